@@ -175,38 +175,41 @@ type Chain struct {
 	Problems  []string // producer/zrnt disagreements (go to chaingen.md by hand)
 	Epochs    int
 
-	OpRate          OpRates
-	attGenUpTo      common.Slot
-	depositors      map[common.BLSPubkey]GenVal
-	slashedSet      map[common.ValidatorIndex]bool
-	exitSet         map[common.ValidatorIndex]bool
-	activated       map[common.ValidatorIndex]bool
-	aggDone         map[common.Root]bool
-	lastFin         common.Checkpoint
-	lastJust        common.Checkpoint
-	lastNextSync    common.Root
-	leakForks       [5]bool
-	initialVals     int
-	divergences     []string
-	Absent          map[common.ValidatorIndex]bool
-	SlotSteps       []HonestSlots
-	prevEff         []common.Gwei
-	branches        int
-	heldSt          common.BeaconState    // reverse branch: an untouched copy taken earlier …
-	heldEpc         *common.EpochsContext // … with a Clone() of the context of that moment
-	heldID          string
-	heldEpoch       common.Epoch
-	syncTargetsDone map[common.Epoch]bool
-	ZeroHashMerge   bool // the merge-transition payload gets block_hash = 0
-	rejections      int
-	runErr          error
-	Eth1HalfPattern bool
-	halfY           common.Eth1Data
-	halfPeriod      int
-	justified       map[common.Epoch]bool
-	modeOf          map[common.Epoch]string
-	SpareShare      int  // percent of the genesis validators that operations must leave healthy (default 40)
-	VoteAlways      bool // proposers always vote for the eth1 candidate
+	OpRate                    OpRates
+	attGenUpTo                common.Slot
+	depositors                map[common.BLSPubkey]GenVal
+	slashedSet                map[common.ValidatorIndex]bool
+	exitSet                   map[common.ValidatorIndex]bool
+	activated                 map[common.ValidatorIndex]bool
+	aggDone                   map[common.Root]bool
+	lastFin                   common.Checkpoint
+	lastJust                  common.Checkpoint
+	lastNextSync              common.Root
+	leakForks                 [5]bool
+	initialVals               int
+	divergences               []string
+	Absent                    map[common.ValidatorIndex]bool
+	SlotSteps                 []HonestSlots
+	prevEff                   []common.Gwei
+	cancelDone                map[string]bool
+	NoSkipBeforePhase0Deposit bool
+	CoverForks                [5]bool // forks whose (fork, operation) pairs this chain covers with cancellation sweeps
+	branches                  int
+	heldSt                    common.BeaconState    // reverse branch: an untouched copy taken earlier …
+	heldEpc                   *common.EpochsContext // … with a Clone() of the context of that moment
+	heldID                    string
+	heldEpoch                 common.Epoch
+	syncTargetsDone           map[common.Epoch]bool
+	ZeroHashMerge             bool // the merge-transition payload gets block_hash = 0
+	rejections                int
+	runErr                    error
+	Eth1HalfPattern           bool
+	halfY                     common.Eth1Data
+	halfPeriod                int
+	justified                 map[common.Epoch]bool
+	modeOf                    map[common.Epoch]string
+	SpareShare                int  // percent of the genesis validators that operations must leave healthy (default 40)
+	VoteAlways                bool // proposers always vote for the eth1 candidate
 }
 
 // HonestStep remembers one honest `trans` for the corruption and cancellation streams.
